@@ -3,6 +3,12 @@ package main
 import (
 	"context"
 	"fmt"
+	signerhandler "github.com/attestantio/dirk/services/api/grpc/handlers/signer"
+	distributed "github.com/wealdtech/go-eth2-wallet-distributed"
+	keystorev4 "github.com/wealdtech/go-eth2-wallet-encryptor-keystorev4"
+	nd "github.com/wealdtech/go-eth2-wallet-nd/v2"
+	scratch "github.com/wealdtech/go-eth2-wallet-store-scratch"
+	e2wtypes "github.com/wealdtech/go-eth2-wallet-types/v2"
 	"os"
 	"path/filepath"
 	"runtime/debug"
@@ -513,12 +519,42 @@ func cmdWire(args []string) int {
 	}
 
 	// ---- the other client-facing services and key-generation messages from non-peers: no panic ----
-	node, err := NewNode(ctx, NodeOpts{ID: 1, Stores: fx.Stores, Perms: map[string][]*checker.Permissions{
-		"client1": {{Path: "Wallet 1", Operations: []string{"All"}}, {Path: "Wallet 2", Operations: []string{"All"}}}},
+	// the first store (the one accounts are created in) holds a plain and a distributed wallet of its own
+	st0 := scratch.New()
+	if _, err := nd.CreateWallet(ctx, "Wallet N", st0, keystorev4.New()); err != nil {
+		return 2
+	}
+	if _, err := distributed.CreateWallet(ctx, "Wallet D", st0, keystorev4.New()); err != nil {
+		return 2
+	}
+	node, err := NewNode(ctx, NodeOpts{ID: 1, Stores: append([]e2wtypes.Store{st0}, fx.Stores...), Perms: map[string][]*checker.Permissions{
+		"client1": {{Path: "Wallet 1", Operations: []string{"All"}}, {Path: "Wallet 2", Operations: []string{"All"}}, {Path: "Wallet N", Operations: []string{"All"}}, {Path: "Wallet D", Operations: []string{"All"}}}},
 		PeersMap: map[uint64]string{1: "signer-test01:10001", 2: "signer-test02:10002"}})
 	if err != nil {
 		fmt.Fprintln(os.Stderr, err)
 		return 2
+	}
+	nsh, err0 := signerhandler.New(ctx, signerhandler.WithSigner(node.Signer))
+	if err0 != nil {
+		return 2
+	}
+	// every call of this section runs under a watchdog: a request that is never answered is a failure too
+	hung := false
+	timed := func(what string, f func()) {
+		if hung {
+			return
+		}
+		done := make(chan struct{})
+		go func() {
+			defer close(done)
+			guarded(what, f)
+		}()
+		select {
+		case <-done:
+		case <-time.After(20 * time.Second):
+			hung = true
+			monFail = append(monFail, fmt.Sprintf("%s was never answered (20 s); the instance stopped answering", what))
+		}
 	}
 	lh, err1 := listerhandler.New(ctx, listerhandler.WithLister(node.Lister))
 	ah, err2 := accountmanagerhandler.New(ctx, accountmanagerhandler.WithAccountManager(node.AcctMgr), accountmanagerhandler.WithProcess(node.Process))
@@ -534,7 +570,21 @@ func cmdWire(args []string) int {
 	for i := 0; i < nOther; i++ {
 		client := []string{"client1", "client1", "nobody", "", "signer-test03"}[rng.Intn(5)]
 		hctx := ctxWithClient(ctx, client, "10.0.0.1")
-		switch k := rng.Intn(11); k {
+		switch k := rng.Intn(14); k {
+		case 11:
+			// a signing request addressed by a public key the instance does not hold
+			d := &pb.SignRequest{Id: &pb.SignRequest_PublicKey{PublicKey: rng.Bytes(48)}, Domain: mkDomain([]byte{2, 0, 0, 0}, 1), Data: fill32(5)}
+			timed("Sign by an unknown public key", func() { _, _ = nsh.Sign(hctx, d) })
+			stats["other.Sign-unknown-key"]++
+		case 12, 13:
+			// account creation in a plain and in a distributed wallet, one participant
+			name := fmt.Sprintf("%s/new%d", []string{"Wallet N", "Wallet D"}[rng.Intn(2)], i)
+			d := &pb.GenerateRequest{Account: name, Passphrase: []byte("pass"), Participants: 1, SigningThreshold: 1}
+			timed(fmt.Sprintf("Generate(%q, n=1, t=1) by %q", name, client), func() { _, _ = ah.Generate(hctx, d) })
+			timed("ListAccounts after a creation", func() {
+				_, _ = lh.ListAccounts(hctx, &pb.ListAccountsRequest{Paths: []string{"Wallet N", "Wallet 1"}})
+			})
+			stats["other.Generate-own-wallets"]++
 		case 0:
 			m := &pb.ListAccountsRequest{}
 			for n := rng.Intn(6); n > 0; n-- {
@@ -542,7 +592,7 @@ func cmdWire(args []string) int {
 			}
 			d := &pb.ListAccountsRequest{}
 			if roundTrip(m, d) == nil {
-				guarded(fmt.Sprintf("ListAccounts(%q)", d.GetPaths()), func() { _, _ = lh.ListAccounts(hctx, d) })
+				timed(fmt.Sprintf("ListAccounts(%q)", d.GetPaths()), func() { _, _ = lh.ListAccounts(hctx, d) })
 				stats["other.ListAccounts"]++
 			}
 		case 1:
@@ -555,30 +605,30 @@ func cmdWire(args []string) int {
 			}
 			d := &pb.GenerateRequest{}
 			if roundTrip(m, d) == nil {
-				guarded(fmt.Sprintf("Generate(%q, n=%d, t=%d)", d.GetAccount(), d.GetParticipants(), d.GetSigningThreshold()), func() { _, _ = ah.Generate(hctx, d) })
+				timed(fmt.Sprintf("Generate(%q, n=%d, t=%d)", d.GetAccount(), d.GetParticipants(), d.GetSigningThreshold()), func() { _, _ = ah.Generate(hctx, d) })
 				stats["other.Generate"]++
 			}
 		case 2, 3:
 			m := &pb.UnlockAccountRequest{Account: weird(), Passphrase: g.bytesField(4, 'p')}
 			d := &pb.UnlockAccountRequest{}
 			if roundTrip(m, d) == nil {
-				guarded(fmt.Sprintf("Unlock(%q)", d.GetAccount()), func() { _, _ = ah.Unlock(hctx, d) })
-				guarded(fmt.Sprintf("Lock(%q)", d.GetAccount()), func() { _, _ = ah.Lock(hctx, &pb.LockAccountRequest{Account: d.GetAccount()}) })
+				timed(fmt.Sprintf("Unlock(%q)", d.GetAccount()), func() { _, _ = ah.Unlock(hctx, d) })
+				timed(fmt.Sprintf("Lock(%q)", d.GetAccount()), func() { _, _ = ah.Lock(hctx, &pb.LockAccountRequest{Account: d.GetAccount()}) })
 				stats["other.AccountLock/Unlock"]++
 			}
 		case 4, 5:
 			m := &pb.UnlockWalletRequest{Wallet: weird(), Passphrase: g.bytesField(4, 'p')}
 			d := &pb.UnlockWalletRequest{}
 			if roundTrip(m, d) == nil {
-				guarded(fmt.Sprintf("WalletUnlock(%q)", d.GetWallet()), func() { _, _ = wh.Unlock(hctx, d) })
-				guarded(fmt.Sprintf("WalletLock(%q)", d.GetWallet()), func() { _, _ = wh.Lock(hctx, &pb.LockWalletRequest{Wallet: d.GetWallet()}) })
+				timed(fmt.Sprintf("WalletUnlock(%q)", d.GetWallet()), func() { _, _ = wh.Unlock(hctx, d) })
+				timed(fmt.Sprintf("WalletLock(%q)", d.GetWallet()), func() { _, _ = wh.Lock(hctx, &pb.LockWalletRequest{Wallet: d.GetWallet()}) })
 				stats["other.WalletLock/Unlock"]++
 			}
 		default:
 			// key-generation messages from a caller that is not a peer
 			sctx := ctxWithClient(ctx, []string{"client1", "", "mallory"}[rng.Intn(3)], "10.0.0.1")
 			acct := weird()
-			guarded("receiver (non-peer)", func() {
+			timed("receiver (non-peer)", func() {
 				switch k {
 				case 6:
 					m := &pb.PrepareRequest{Account: acct, Passphrase: g.bytesField(4, 'p'), Threshold: uint32(g.number())}
